@@ -9,11 +9,11 @@ import (
 )
 
 // ParseTemplateBytes parses template bytes into HTML nodes, handling both full documents and fragments.
-// If the content contains a full HTML document (</html> tag), it uses html.Parse.
+// If the content contains a full HTML document (</html> tag, in any letter case), it uses html.Parse.
 // Otherwise, it parses as a fragment using a cached body element.
 func ParseTemplateBytes(templateBytes []byte) ([]*html.Node, error) {
 	// Check if input template contains html/body
-	if bytes.Contains(templateBytes, []byte("</html>")) {
+	if containsEndTagHTML(templateBytes) {
 		doc, err := html.ParseWithOptions(bytes.NewReader(templateBytes), html.ParseOptionEnableScripting(false))
 		if err != nil {
 			return nil, err
@@ -32,4 +32,30 @@ func ParseTemplateBytes(templateBytes []byte) ([]*html.Node, error) {
 		return nil, err
 	}
 	return nodes, nil
+}
+
+// containsEndTagHTML reports whether b contains "</html>", letters in either case: tag names
+// are case-insensitive in HTML, and a document written with <HTML> ... </HTML> is a document.
+func containsEndTagHTML(b []byte) bool {
+	const tag = "</html>"
+	for i := 0; i+len(tag) <= len(b); i++ {
+		if b[i] != '<' {
+			continue
+		}
+		j := 1
+		for j < len(tag) {
+			c := b[i+j]
+			if 'A' <= c && c <= 'Z' {
+				c += 'a' - 'A'
+			}
+			if c != tag[j] {
+				break
+			}
+			j++
+		}
+		if j == len(tag) {
+			return true
+		}
+	}
+	return false
 }
